@@ -52,6 +52,8 @@ def exc1(e: BaseException) -> str:
         return f"e{e.n}"
     if isinstance(e, RuntimeError):
         return "r"
+    if isinstance(e, TimeoutError):
+        return "e0"  # the TimeoutError of fail_after: an ordinary error as far as the kernel goes
     return "x" + type(e).__name__
 
 
@@ -298,6 +300,16 @@ class KRun:
         elif k == "raise":
             self.hist("raise", me, s[1])
             raise Err(s[1])
+        elif k == "raisegroup":
+            # a user-made exception group: native CancelledError leaves ("n") and errors ("e<k>")
+            excs: list[BaseException] = []
+            for c in s[1]:
+                excs.append(asyncio.CancelledError() if c == "n" else Err(int(c[1:])))
+                if c != "n":
+                    self.hist("raise", me, int(c[1:]))
+            raise BaseExceptionGroup("user group", excs)
+        elif k == "failafter":
+            await self.failafter_stmt(me, s[1], s[2])
         elif k == "catch":
             try:
                 await self.body(me, s[1])
@@ -355,6 +367,8 @@ class KRun:
                     self.hist("started", me)
                 except RuntimeError:
                     self.lines[i][1] = "rterr"
+                    fut = getattr(ts, "_future", None)
+                    self.hist("started-refused", me, bool(fut is not None and fut.cancelled()))
         elif k == "effdl":
             v = anyio.current_effective_deadline()
             txt = "inf" if v == math.inf else "-inf" if v == -math.inf else str(int(v))
@@ -399,6 +413,47 @@ class KRun:
         if exc is not None and not swallowed:
             raise exc
 
+    async def failafter_stmt(self, me: int, opts: dict, body: list) -> None:
+        """`with anyio.fail_after(d):` -- a deadline scope plus the TimeoutError conversion"""
+        d = opts.get("deadline")
+        cm = anyio.fail_after(d)
+        sc = cm.__enter__()
+        L = self.reg_scope(sc)
+        self.scope_by_key[opts["k"]] = (L, sc)
+        txt = "-" if d is None else str(self.now() + int(d))
+        self.emit(f"{me} mkscope {L} 0 {txt}", "ok")
+        self.emit(f"{me} enter {L}", "ok")
+        # the real enter has already happened (inside fail_after's __enter__): tell the oracle first
+        self.hist("enter", L, me)
+        self.hist("mkscope", L, me, False, None if d is None else int(txt), opts["k"])
+        self.q_cancelling(me)
+        exc: BaseException | None = None
+        try:
+            await self.body(me, body)
+        except BaseException as e:
+            exc = e
+        i = self.emit(f"{me} exit {L} {evcode(exc)}", None)
+        timeout = False
+        try:
+            swallowed = cm.__exit__(type(exc) if exc else None, exc, exc.__traceback__ if exc else None)
+        except TimeoutError:
+            swallowed, timeout = True, True
+        except BaseException as e2:
+            self.lines[i][1] = ("exit raised " + evcode(e2)) if isinstance(e2, BaseExceptionGroup) else "rterr"
+            self.hist("exit", L, me, evcode(exc), "raised", evcode(e2), sc.cancelled_caught)
+            self.q_scope(L, sc)
+            raise
+        self.lines[i][1] = "exit swallowed" if swallowed else "exit passed"
+        self.hist("exit", L, me, evcode(exc), "swallowed" if swallowed else "passed", "", sc.cancelled_caught)
+        self.q_scope(L, sc)
+        self.emit(f"q failat {L}", str(int(timeout)))
+        self.hist("failat", L, me, timeout, sc.cancelled_caught)
+        self.q_cancelling(me)
+        if timeout:
+            raise TimeoutError
+        if exc is not None and not swallowed:
+            raise exc
+
     async def group_stmt(self, me: int, opts: dict, body: list) -> None:
         tg = anyio.create_task_group()
         G = self.nG
@@ -421,8 +476,10 @@ class KRun:
         try:
             swallowed = await tg.__aexit__(type(exc) if exc else None, exc, exc.__traceback__ if exc else None)
         except BaseException as e2:
-            self.close(me, "done " + owncode(e2))
-            self.hist("aexit-end", G, me, owncode(e2), self.handle_snapshot())
+            # re-raising the very exception that was handed in: same classification as on the way in
+            code = evcode(exc) if e2 is exc else owncode(e2)
+            self.close(me, "done " + code)
+            self.hist("aexit-end", G, me, code, self.handle_snapshot())
             self.q_scope(L, tg.cancel_scope)
             self.q_cancelling(me)
             raise
